@@ -34,6 +34,13 @@ class Run(object):
         self.net.add_endpoint(h, pt, lambda net, c: peers.ThriftPeer(net, c, H.Processor, peers.EchoHandler, self.server_log))
       else:
         self.net.add_endpoint(h, pt, lambda net, c: peers.MuxPeer(net, c, H.Processor, peers.EchoHandler, self.server_log))
+    if p.get('prior_client'):
+      # another client of the same process was configured earlier with its own resurrector (and pool) settings; the client under
+      # test uses the stock ones
+      from scales.resurrector import ResurrectorSink
+      from scales.pool.watermark import WatermarkPoolSink
+      ResurrectorSink.Builder(initial_wait_interval=30, max_wait_interval=600, backoff_exponent=1.5)
+      WatermarkPoolSink.Builder(max_watermark=1, max_queue_len=1)
     if p['stack'] == 'thrift':
       from scales.thrift.builder import Thrift
       b = Thrift.NewBuilder(H.Iface)
@@ -350,6 +357,9 @@ def histories(tier):
                           [(u1, u1 + gap + 0.35, u1 + gap + 0.35 + out2) for u1 in (4.0, 9.0, 16.0) for gap in (8.0, 16.0, 30.0) for out2 in (3.0, 12.0, 40.0)]:
         out.append({'stack': stack, 'endpoints': n, 'mode': 'refuse', 'down_at': 2.25, 'up_at': None, 'horizon': 160,
                     'downs': {'0': d2}, 'ups': {'0': u1 + 0.0125}, 'ups2': {'0': u2 + 0.0125}, 'second_outage': True})
+    # a client with the stock settings, built after another client of the same process was given its own
+    for up in (40.0, 200.0):
+      out.append({'stack': stack, 'endpoints': 1, 'down_at': 2.25, 'mode': 'refuse', 'up_at': up + 0.0125, 'horizon': up + 140, 'prior_client': True})
     # one very long outage (tens of minutes to hours: dozens of failed reconnect attempts at the capped interval), one call every 7 s
     for n in (1, 2):
       for mode in ('refuse', 'stall'):
